@@ -361,8 +361,18 @@ func ParseSpendPolicy(s string) (SpendPolicy, error) {
 		err = uk.UnmarshalText([]byte(t))
 		return
 	}
+	var depth int
 	var parseSpendPolicy func() SpendPolicy
 	parseSpendPolicy = func() SpendPolicy {
+		// like the binary decoder, bound the nesting depth so that a
+		// maliciously nested policy cannot exhaust the stack
+		if depth++; depth > maxPolicyDepth+1 {
+			if err == nil {
+				err = fmt.Errorf("policy exceeds maximum nesting depth of %d", maxPolicyDepth)
+			}
+			return SpendPolicy{}
+		}
+		defer func() { depth-- }()
 		typ := nextToken()
 		consume('(')
 		defer consume(')')
